@@ -31,9 +31,12 @@ HT == <<
  [ver |-> 2, fmt |-> 32, asz |-> 1, le |-> TRUE,  mil |-> 255, maxops |-> 1,   dis |-> FALSE,
   lbase |-> 127,     lrange |-> 12,  obase |-> 1,   oplens |-> <<>>],
  [ver |-> 3, fmt |-> 64, asz |-> 1, le |-> TRUE,  mil |-> 1,   maxops |-> 1,   dis |-> TRUE,
-  lbase |-> 0 - 5,   lrange |-> 14,  obase |-> 255, oplens |-> StdLens \o [k \in 1..242 |-> k % 4]],
+  lbase |-> 0 - 5,   lrange |-> 14,  obase |-> 40,  oplens |-> StdLens \o [k \in 1..27 |-> k % 4]],
  [ver |-> 5, fmt |-> 64, asz |-> 1, le |-> FALSE, mil |-> 3,   maxops |-> 255, dis |-> FALSE,
-  lbase |-> 0 - 1,   lrange |-> 4,   obase |-> 13,  oplens |-> StdLens]
+  lbase |-> 0 - 1,   lrange |-> 4,   obase |-> 13,  oplens |-> StdLens],
+ (* 7: only used by the opcode sweep: every opcode but 255 is a standard opcode *)
+ [ver |-> 4, fmt |-> 32, asz |-> 1, le |-> TRUE,  mil |-> 1,   maxops |-> 2,   dis |-> TRUE,
+  lbase |-> 0 - 5,   lrange |-> 14,  obase |-> 255, oplens |-> StdLens \o [k \in 1..242 |-> k % 4]]
 >>
 
 (* fixed small tables for the program models *)
@@ -76,22 +79,33 @@ FullSyms(H) == CoreSyms(H) \cup {
     Sym(IUnkExt(128, <<1, 2>>)), Sym(IUnkExt(3, <<5>>)),
     Sym(IUnkStd0(13)), Sym(IUnkStd1(14, Nat8(200))), Sym(IUnkStdN(15, <<129, 0, 2>>)),
     Sym(IUnkStdN(19, <<1, 2, 3, 4, 255, 127>>)),
-    Sym(IUnkStd1(13, U64Max)), Sym(IUnkStdN(254, <<0, 0>>)), Sym(IUnkStd0(16)) }
+    Sym(IUnkStd1(13, U64Max)), Sym(IUnkStdN(38, <<0, 0>>)), Sym(IUnkStd0(16)) }
 
-Core(H) == {s \in CoreSyms(H) : Encodable(H, s.ins)}
-Full(H) == {s \in FullSyms(H) : Encodable(H, s.ins)}
+(* a symbol together with its encoding under H (computed once) *)
+WithBytes(H, s) == [ins |-> s.ins, pad |-> s.pad, bytes |-> Enc(H, s.ins, s.pad)]
+Core(H) == {WithBytes(H, s) : s \in {t \in CoreSyms(H) : Encodable(H, t.ins)}}
+Full(H) == {WithBytes(H, s) : s \in {t \in FullSyms(H) : Encodable(H, t.ins)}}
+(* evaluated once (constant level): the alphabets, headers and table       *)
+(* meanings per header tuple                                               *)
+CoreT == TLCEval([k \in 1..Len(HT) |-> Core(HT[k])])
+FullT == TLCEval([k \in 1..Len(HT) |-> Full(HT[k])])
+HdrT == TLCEval([k \in 1..Len(HT) |-> EncHeaderBody(HT[k], Tab(HT[k]))])
 
-ProgBytes(H, q) == Flatten([k \in 1..Len(q) |-> Enc(H, q[k].ins, q[k].pad)])
+ProgBytes(q) == Flatten([k \in 1..Len(q) |-> q[k].bytes])
 
 (*------------------------------------------------------------------------*)
-(* Expected observation of a section made of one unit.  S = Run(H, b),     *)
-(* D = StdRun(H, b), RR = ResumedRuns(H, b, S) are computed once per case.  *)
-HdrExp(H) == [ver |-> H.ver, fmt |-> H.fmt, asz |-> H.asz, mil |-> H.mil, maxops |-> H.maxops, dis |-> H.dis,
-              lbase |-> H.lbase, lrange |-> H.lrange, obase |-> H.obase, oplens |-> H.oplens]
-Exp(H, T, S, D, RR) ==
-    [hdr |-> HdrExp(H), wf |-> D.wf, end |-> S.end, rows |-> S.rows,
-     dirs |-> DirMeanings(H, T), files0 |-> FileMeanings(H, T),
-     files |-> FileMeanings(H, T) \o [k \in 1..Len(S.files) |-> FileMeaningDef(S.files[k])],
+(* Expected observation of a section made of one unit.  L = DecodeAll(H,b), *)
+(* S = Run(H, L), D = StdRun(H, L), RR = ResumedRuns(H, L, S) are computed  *)
+(* once per case; TM = TabMeaning(H, T) once per header.                    *)
+TabMeaning(H, T) ==
+    [hdr |-> [ver |-> H.ver, fmt |-> H.fmt, asz |-> H.asz, mil |-> H.mil, maxops |-> H.maxops, dis |-> H.dis,
+              lbase |-> H.lbase, lrange |-> H.lrange, obase |-> H.obase, oplens |-> H.oplens],
+     dirs |-> DirMeanings(H, T), files |-> FileMeanings(H, T)]
+TabT == TLCEval([k \in 1..Len(HT) |-> TabMeaning(HT[k], Tab(HT[k]))])
+
+Exp(TM, S, D, RR) ==
+    [hdr |-> TM.hdr, wf |-> D.wf, end |-> S.end, rows |-> S.rows, dirs |-> TM.dirs, files0 |-> TM.files,
+     files |-> TM.files \o [k \in 1..Len(S.files) |-> FileMeaningDef(S.files[k])],
      seqs |-> [k \in 1..Len(RR) |-> [start |-> S.seqs[k].start, end |-> S.seqs[k].end, rows |-> RR[k].rows]]]
 
 (* design-level lemmas on one program *)
@@ -100,25 +114,27 @@ Lemmas(H, S, D, RR) ==
     /\ Monotone(S.rows) /\ InRange(S.rows, H.asz)
     /\ SequencesConsistent(S, RR)
 
-Check(kind, H, T, b) ==
-    \E S \in {Run(H, b)} : \E D \in {StdRun(H, b)} : \E RR \in {ResumedRuns(H, b, S)} :
+(* hdr = EncHeaderBody(H, T), TM = TabMeaning(H, T), b = program bytes *)
+Check(kind, H, hdr, TM, b) ==
+    \E L \in {DecodeAll(H, b)} : \E S \in {Run(H, L)} : \E D \in {StdRun(H, L)} :
+    \E RR \in {ResumedRuns(H, L, S)} :
        /\ Lemmas(H, S, D, RR)
-       /\ PrintT(<<"CASE", ToJson([sys |-> kind, le |-> H.le, asz |-> H.asz, sect |-> EncLineHeader(H, T, b),
-                                   prog |-> b, exp |-> Exp(H, T, S, D, RR)])>>)
+       /\ PrintT(<<"CASE", ToJson([sys |-> kind, le |-> H.le, asz |-> H.asz, sect |-> EncUnit(H, hdr, b),
+                                   prog |-> b, exp |-> Exp(TM, S, D, RR)])>>)
 
 (*------------------------------------------------------------------------*)
 (* prog *)
 InitProg == h \in Tuples /\ p = <<>>
 NextProg ==
     /\ h' = h
-    /\ \/ Len(p) < FullLen /\ \E s \in Full(HT[h]) : p' = Append(p, s)
-       \/ Len(p) >= FullLen /\ Len(p) < CoreLen /\ (\A k \in DOMAIN p : p[k] \in Core(HT[h]))
-          /\ \E s \in Core(HT[h]) : p' = Append(p, s)
-RoundTrip(H, q) == \A k \in DOMAIN q :
-                      \E e \in {Enc(H, q[k].ins, q[k].pad)} : Dec(H, e, 1) = DecOk(q[k].ins, Len(e))
-InvProg == LET H == HT[h] IN \E b \in {ProgBytes(HT[h], p)} :
-           /\ RoundTrip(H, p)
-           /\ Check("prog", H, Tab(H), b)
+    /\ \/ Len(p) < FullLen /\ \E s \in FullT[h] : p' = Append(p, s)
+       \/ Len(p) >= FullLen /\ Len(p) < CoreLen /\ (\A k \in DOMAIN p : p[k] \in CoreT[h])
+          /\ \E s \in CoreT[h] : p' = Append(p, s)
+(* Dec o Enc = identity on every symbol; checked when the symbol is appended *)
+RoundTrip(H, s) == Dec(H, s.bytes, 1) = DecOk(s.ins, Len(s.bytes))
+InvProg == \E H \in {HT[h]} : \E b \in {ProgBytes(p)} :
+           /\ (p # <<>> => RoundTrip(H, p[Len(p)]))
+           /\ Check("prog", H, HdrT[h], TabT[h], b)
 
 (*------------------------------------------------------------------------*)
 (* opc: p = <<prefix index, opcode byte, tail index>> *)
@@ -126,12 +142,13 @@ Prefixes(H) == << <<>>, Enc(H, IV("set_address", Nat8(32)), <<>>) \o Enc(H, IV("
                   Enc(H, IV("set_address", Nat8(255)), <<>>) >>
 Tails == << <<>>, <<131, 1, 5, 129, 0, 2, 1, 1>>, <<255, 255, 255, 255, 255, 255, 255, 255, 255, 1, 1>>,
             <<128>>, <<2, 1, 0, 1, 1>> >>
+PrefixT == TLCEval([k \in 1..Len(HT) |-> Prefixes(HT[k])])
 InitOpc == h \in Tuples /\ p = <<>>
 NextOpc == /\ h' = h /\ p = <<>>
            /\ \E i \in 1..3 : \E o \in 0..255 : \E t \in 1..Len(Tails) : p' = <<i, o, t>>
 InvOpc == p # <<>> =>
-           LET H == HT[h] IN \E b \in {Prefixes(HT[h])[p[1]] \o <<p[2]>> \o Tails[p[3]]} :
-           /\ Check("opc", H, Tab(H), b)
+           \E H \in {HT[h]} : \E b \in {PrefixT[h][p[1]] \o <<p[2]>> \o Tails[p[3]]} :
+           Check("opc", H, HdrT[h], TabT[h], b)
 
 (*------------------------------------------------------------------------*)
 (* wide: address sizes 2, 4, 8 *)
@@ -148,17 +165,20 @@ WideSyms(H) == {
     Sym(IV("advance_pc", Nat8(17))), Sym(IV("advance_pc", Top(H.asz, 20))), Sym(IV("advance_pc", U64Max)),
     Sym(IV("fixed_advance_pc", Nat8(65535))), Sym(IV("fixed_advance_pc", Nat8(17))) }
 InitWide == h \in 1..Len(WideHT) /\ p = <<>>
-NextWide == h' = h /\ Len(p) < FullLen /\ \E s \in WideSyms(WideHT[h]) : p' = Append(p, s)
-InvWide == LET H == WideHT[h] IN \E b \in {ProgBytes(WideHT[h], p)} :
-           /\ RoundTrip(H, p)
-           /\ Check("wide", H, Tab(H), b)
+WideT == TLCEval([k \in 1..Len(WideHT) |-> {WithBytes(WideHT[k], s) : s \in WideSyms(WideHT[k])}])
+WideHdrT == TLCEval([k \in 1..Len(WideHT) |-> EncHeaderBody(WideHT[k], Tab(WideHT[k]))])
+WideTabT == TLCEval([k \in 1..Len(WideHT) |-> TabMeaning(WideHT[k], Tab(WideHT[k]))])
+NextWide == h' = h /\ Len(p) < FullLen /\ \E s \in WideT[h] : p' = Append(p, s)
+InvWide == \E H \in {WideHT[h]} : \E b \in {ProgBytes(p)} :
+           /\ (p # <<>> => RoundTrip(H, p[Len(p)]))
+           /\ Check("wide", H, WideHdrT[h], WideTabT[h], b)
 
 (*------------------------------------------------------------------------*)
 (* hdr: p = <<>> | [T |-> tables]; a fixed short program follows.          *)
 HdrH(ver, fmt, le) == [ver |-> ver, fmt |-> fmt, asz |-> 1, le |-> le, mil |-> 1, maxops |-> 1, dis |-> TRUE,
                        lbase |-> 0 - 5, lrange |-> 14, obase |-> 13, oplens |-> StdLens]
 HdrHT == <<HdrH(2, 32, TRUE), HdrH(3, 64, FALSE), HdrH(4, 32, FALSE), HdrH(5, 32, TRUE), HdrH(5, 64, FALSE)>>
-HdrProg(H) == ProgBytes(H, <<Sym(IV("set_file", Nat8(2))), Sym(I0("copy")), Sym(I0("end_sequence"))>>)
+HdrProg(H) == Enc(H, IV("set_file", Nat8(2)), <<>>) \o Enc(H, I0("copy"), <<>>) \o Enc(H, I0("end_sequence"), <<>>)
 
 Names == {<<97>>, <<98, 99, 47, 100>>}
 Nums == {Z8, Nat8(1), Nat8(128), U64Max}
@@ -208,7 +228,7 @@ NextHdr ==
                  p' = [T |-> [dfmt |-> f, dirs |-> [k \in 1..n |-> Entry(f, k)], ffmt |-> SimpleFmt,
                               files |-> <<<<<<97>>>>>>]]
 InvHdr == p # <<>> =>
-           LET H == HdrHT[h] IN
+           \E H \in {HdrHT[h]} : \E b \in {HdrProg(HdrHT[h])} :
            /\ (H.ver >= 5 => FormatOk(p.T.dfmt) /\ FormatOk(p.T.ffmt))
-           /\ \E b \in {HdrProg(H)} : Check("hdr", H, p.T, b)
+           /\ \E hdr \in {EncHeaderBody(H, p.T)} : \E TM \in {TabMeaning(H, p.T)} : Check("hdr", H, hdr, TM, b)
 =============================================================================
